@@ -37,6 +37,8 @@ func main() {
 		os.Exit(cmdWorker(os.Args[2:]))
 	case "replay":
 		os.Exit(cmdReplay(os.Args[2:]))
+	case "hashes":
+		os.Exit(cmdHashes(os.Args[2:]))
 	case "list":
 		for _, id := range props.IDs() {
 			fmt.Println(id)
@@ -792,4 +794,55 @@ func hasUnknown(vs []FoundViolation) bool {
 		}
 	}
 	return false
+}
+
+// cmdHashes prints, for run indices 0..n-1, the event-log hash, the switch-trace hash and the
+// violation signatures: the determinism self-test compares these lines across processes,
+// GOMAXPROCS values and paranoid mode.
+func cmdHashes(args []string) int {
+	fs := flag.NewFlagSet("hashes", flag.ExitOnError)
+	propID := fs.String("prop", "", "")
+	n := fs.Int("n", 40, "")
+	seed := fs.Uint64("seed", 1, "")
+	paranoid := fs.Bool("paranoid", false, "")
+	dump := fs.Int("dump", -1, "")
+	fs.Parse(args)
+	p := props.Registry[*propID]
+	if p == nil {
+		return 2
+	}
+	debug.SetGCPercent(-1)
+	var sweep [][]uint32
+	if p.Sweep != nil {
+		sweep = p.Sweep("quick")
+	}
+	for i := 0; i < *n; i++ {
+		rs := runSeed(*seed, p.ID, i)
+		var tape *simrt.Tape
+		// alternate enumerated and sampled cases
+		if i%2 == 0 && i/2 < len(sweep) {
+			tape = simrt.PrefixTape(rs, sweep[(i/2*7919)%len(sweep)])
+		} else {
+			tape = simrt.NewTape(rs)
+		}
+		out := execRun(p, tape, props.Opts{Tier: "quick", Paranoid: *paranoid, KeepLog: i == *dump})
+		if i == *dump {
+			for _, l := range out.Log {
+				fmt.Println(l)
+			}
+		}
+		sigs := ""
+		for _, v := range out.Viols {
+			sigs += v.Signature + ";"
+		}
+		infra := ""
+		if out.Infra != nil {
+			infra = string(out.Infra.Kind) + ":" + out.Infra.Msg
+		}
+		fmt.Printf("%s %d %x %x %d %d %s %s\n", p.ID, i, out.Stats.LogHash, out.Stats.TraceHash, out.Stats.Steps, len(tape.Used()), sigs, infra)
+		if i%32 == 31 {
+			runtime.GC()
+		}
+	}
+	return 0
 }
